@@ -23,7 +23,7 @@ ASSUMPTIONS = ['floats as reals (the "to rounding" clause of the property is out
                'precondition for selection: at least one candidate has positive weight',
                'Inv deliberately does not constrain max_weight_count (a stale-high maximum only costs speed)',
                'increments are >= 0 as in the property statement (negative increments are outside it)']
-OPS = ['insert_new', 'insert_existing', 'update_new', 'update_existing', 'remove', 'none']
+OPS = ['insert_new', 'insert_existing', 'update_new', 'update_existing', 'remove', 'recompute_total', 'none']
 MUST_EVALUATE = {'quick': ['inv:max>=weights', 'inv:total=sum', 'inv:positions', 'accept-threshold', 'accept-prob-in-[0,1]',
                            'zero-weight-never-selected', 'total_weight()=sum', 'proposal-uniform-over-items',
                            'empty-set-total-is-zero', 'nonempty-total-positive', 'total-within-rounding-of-sum',
@@ -35,7 +35,7 @@ def functions():
     import EoN.simulation as s
     L = s._ListDict_
     return [L.__init__, L.insert, L.update, L.remove, L.choose_random, L.random_removal, L.total_weight, L._update_max_weight,
-            L.__contains__, L.__len__]
+            L.__contains__, L.__len__, L.update_total_weight]
 
 
 def configs(tier):
@@ -239,6 +239,8 @@ def apply_op(ld, op, tgt, a):
         ld.update(('it', tgt), weight_increment=a)
     elif op == 'remove':
         ld.remove(('it', tgt))
+    elif op == 'recompute_total':
+        ld.update_total_weight()      # (Gillespie_simple_contagion calls it when the running total is tiny)
 
 
 def run_path(h, cfg):
